@@ -62,6 +62,20 @@ psRes_t psVerifySig(psPool_t *pool,
 
     *verifyResult = PS_FALSE;
 
+# ifdef USE_RSA
+    /* For RSA PKCS #1.5 the recovered digest is unpadded into, and compared
+       in, the fixed size buffer 'out'.  A longer reference message cannot be
+       a digest: refuse it instead of letting its length size the unpad.
+       (X.509 validation gets here with a whole TBSCertificate as msgIn when
+       a cert claims an Ed25519 signature but its issuer holds an RSA key.) */
+    if (key->type == PS_RSA && !(opts && opts->useRsaPss) &&
+        msgInLen > sizeof(out))
+    {
+        psTraceCrypto("RSA signature verification: bad digest length\n");
+        return PS_ARG_FAIL;
+    }
+# endif
+
     switch (key->type)
     {
 # ifdef USE_RSA
